@@ -7,6 +7,7 @@ import (
 	"verif/checks/c03"
 	"verif/checks/c04"
 	"verif/checks/c05"
+	"verif/checks/c06"
 	"verif/checks/c07"
 	"verif/checks/c08"
 	"verif/checks/c09"
@@ -25,6 +26,7 @@ func main() {
 		"C01": c01.Check,
 		"C04": c04.Check,
 		"C05": c05.Check,
+		"C06": c06.Check,
 		"C14": c14.Check,
 		"C02": c02.Check,
 		"C03": c03.Check,
